@@ -119,16 +119,25 @@ def check_case(case) -> Verdict:
     v.label(f"family:{fam}", f"relabel:{kind}")
     cfg, cfg_t = SETTINGS["default"], SETTINGS["tight"]
     A = _run(base, cfg)
+    if A.get("timeout"):
+        v.discarded("timeout (inconclusive)")
+        return v
     if "setup_error" in A:
         v.discarded("untransformed setup failed")
         return v
     B = _run(relab, cfg)
     v.checked("setup")
+    if B.get("timeout") or A.get("timeout"):
+        v.discarded("timeout (inconclusive)")
+        return v
     if "setup_error" in B:
         v.fail("setup", cls, f"set-up succeeds for the original fields but fails after relabelling "
                              f"{case['relabel']}: {B['setup_error'][:200]}")
         return v
     C = _run(base, cfg_t)
+    if C.get("timeout"):
+        v.discarded("timeout (inconclusive)")
+        return v
     if "setup_error" in C:
         v.discarded("untransformed tight setup failed")
         return v
